@@ -23,7 +23,13 @@ const STMTS = {
   triple_plus: 'x = a + b + c + a;',
   triple_trim: 'x = a.trim().trim().trim();',
   triple_plus_assign: 'x += a; x += b; x += c;',
-  four_tpl: 'x = `${a}` + `${b}${c}` + `${`${a}`}`;'
+  four_tpl: 'x = `${a}` + `${b}${c}` + `${`${a}`}`;',
+  proto_call: 'x = String.prototype.concat.call(a, b);',
+  proto_spread_this: 'x = String.prototype.concat.call(...[a, b]);',
+  proto_apply: 'x = String.prototype.substring.apply(a, [1, i]);',
+  bare_call: 'x = aloneMethod(a);',
+  member_plus_assign: 'o.p += a;',
+  chain_with_args: 'x = s?.concat(a)?.substring(1);'
 }
 const VERBOSITIES = [undefined, 'OFF', 'MANDATORY', 'INFORMATION', 'DEBUG', 'debug']
 
@@ -31,11 +37,12 @@ module.exports = mk({
   id: 'C15',
   families: ['A', 'C', 'M', 'S'],
   familyOpts: () => ({}),
-  // the grammar families are judged under DEBUG verbosity (per-tag breakdown is the richer oracle)
-  requests (leaf) {
-    const S = require('../lib/static_driver')
-    const cfg = leaf.fam === 'perm' ? leaf.config : Object.assign({}, S.leafConfig(leaf), { telemetryVerbosity: 'DEBUG' })
-    return [{ config: cfg, file: S.leafFile(leaf), code: S.leafCode(leaf), want: ['astIn', 'astOut'] }]
+  // the grammar families are judged under DEBUG verbosity (per-tag breakdown is the richer oracle) and with
+  // every hook renamed (a tag is the SOURCE name of the operation, never the hook's)
+  configOf (leaf) {
+    if (leaf.fam === 'perm') return leaf.config
+    const base = require('../lib/static_driver').leafConfig(leaf)
+    return Object.assign({}, base === C.FULL ? C.RENAMED : base, { telemetryVerbosity: 'DEBUG' })
   },
   extra: async (tier) => {
     // all ordered selections of L statements (permutations without repetition) x verbosity
@@ -44,14 +51,15 @@ module.exports = mk({
     const dims = []
     for (let i = 0; i < L; i++) dims.push({ name: 's' + i, symbols: names, free: true })
     dims.push({ name: 'verb', symbols: tier === 'thorough' ? VERBOSITIES : [undefined, 'OFF', 'DEBUG'], free: true })
-    dims.push({ name: 'file', symbols: ['/p/app.js', 'rel/x.js'], free: true })
-    const r = enumerate(dims, { valid: (cur, i) => { if (i < L) for (let j = 0; j < i; j++) if (cur['s' + j] === cur['s' + i]) return false; return true } })
+    dims.push({ name: 'cfg', symbols: ['FULL', 'RENAMED'] })
+    dims.push({ name: 'file', symbols: ['/p/app.js', 'rel/x.js'] })
+    const r = enumerate(dims, { k: 1, valid: (cur, i) => { if (i < L) for (let j = 0; j < i; j++) if (cur['s' + j] === cur['s' + i]) return false; return true } })
     const leaves = r.leaves.map((l) => {
       const body = []
       for (let i = 0; i < L; i++) body.push(STMTS[l.pick['s' + i]])
-      const cfg = Object.assign({}, C.FULL)
+      const cfg = Object.assign({}, C[l.pick.cfg])
       if (l.pick.verb !== undefined) cfg.telemetryVerbosity = l.pick.verb
-      return { fam: 'perm', key: 'perm¦' + body.join('') + '¦' + l.pick.verb + '¦' + l.pick.file, code: `function main(a, b, c, s, o, h) { let x, y, i = 0; ${body.join(' ')} return x }`, config: cfg, file: l.pick.file, desc: 'perm' }
+      return { fam: 'perm', key: 'perm¦' + body.join('') + '¦' + l.pick.verb + '¦' + l.pick.cfg + '¦' + l.pick.file, code: `function main(a, b, c, s, o, h) { let x, y, i = 0; ${body.join(' ')} return x }`, config: cfg, file: l.pick.file, desc: 'perm' }
     })
     // family A under DEBUG as well
     return { leaves, stats: r.stats }
@@ -87,7 +95,7 @@ module.exports = mk({
     } else if (m.propagationDebug) v('debug-unexpected', verb, `verbosity ${verb} but a per-tag breakdown is produced`)
   },
   bound: (tier) => ({ statements_per_program: tier === 'thorough' ? 4 : 3, statement_alphabet: Object.keys(STMTS).length, verbosities: VERBOSITIES.length }),
-  rule: 'leaf = ordered selection of L distinct statements from a 14-statement alphabet mixing instrumented and inspected-but-not-instrumented operations x verbosity x file name, plus families A and C; non-trivial = at least one hook call site emitted; distinct by (text, config, file)',
+  rule: 'leaf = ordered selection of L distinct statements from a 24-statement alphabet mixing instrumented and inspected-but-not-instrumented operations x verbosity x {default, renamed hooks} x file name, plus families A, C, M, S under DEBUG with renamed hooks; non-trivial = at least one hook call site emitted; distinct by (text, config, file)',
   explanation: 'explicit enumeration of statement orders; oracle = metrics of the result vs hook call sites counted in the annotated erasure of the output, tags derived from the input node under each hook',
   assumptions: ['metrics shaping reached through the cfg hook (same code as lib_wasm::get_metrics)']
 })
